@@ -99,7 +99,8 @@ Proof. exact compress_then_decompress_safe. Qed.
 Print Assumptions C01_compress_then_decompress_safe.
 
 (* Kept visible: the same statement for LZ4_compress_HC and friends at EVERY level.  Proved below for levels 1-2
-   (LZ4MID, C01_hc_mid_... theorems) and 3-9 (hash chain, C01_hc_chain_... theorems); NOT proved for levels 10-12 (optimal parser: no Coq model). *)
+   (LZ4MID, C01_hc_mid_... theorems) 3-9 (hash chain, C01_hc_chain_... theorems) and 10-12 (optimal parser, C01_hc_opt_... theorems), each over its own model of
+   the entry points; this abstract form (an arbitrary function compress_HC) is kept only as the shape of the claim. *)
 Definition C01_hc_full_statement : Prop :=
   forall (compress_HC : mem -> Z -> Z -> Z -> Z * list byte) (src : mem) srcSize cap level,
     src_ok src -> let '(r, out) := compress_HC src srcSize cap level in
@@ -215,4 +216,55 @@ Example C01_hc_chain_nonvacuous :
   let r2 := compress_HC_chain (mem_of_list 0 l2) 60 100 3 in
   (0 < cr_ret r < 30 /\ strict_valid [] (cr_out r) = Some l) /\
   (0 < cr_ret r2 < 30 /\ strict_valid [] (cr_out r2) = Some l2) /\ chain_level 9 = true /\ chain_level 3 = true.
+Proof. vm_compute. repeat split; reflexivity. Qed.
+
+(* 8. HC levels 10 to 12 (LZ4HC_compress_optimal: price table opt[], LZ4HC_FindLongerMatch with pattern analysis,
+      chainSwap and favorDecSpeed, backward traversal, forward emission, ultra mode).  Model: Model.HcOpt /
+      Model.HcOptApi, one context model for levels 3..12, tied to lz4hc.c by the `chain` correspondence.
+      Any history of LZ4_compress_HC_extStateHC_fastReset / LZ4_compress_HC_destSize / LZ4_favorDecompressionSpeed
+      calls on ONE LZ4_streamHC_t, levels 3..12 mixed: same conclusions as C01_hc_chain_history. *)
+From LZ4V Require Model.HcOpt Proofs.HcOptParser.
+From LZ4V Require Import Model.HcOptApi Proofs.HcOptApiSound.
+
+Theorem C01_hc_opt_history :
+  forall calls c,
+    cc_ok c -> Forall acall_valid calls ->
+    Forall (fun ka => hcall_post (fst ka) (snd ka)) (run_all_history c calls).
+Proof. exact all_history_sound. Qed.
+Print Assumptions C01_hc_opt_history.
+
+(* the optimal parser itself, for ANY tables (hash entries = indices below the block, chain entries 16-bit,
+   lowLimit >= 64 KB), any nbSearches / targetLength / ultra / favorDecSpeed: factorisation of the consumed input
+   (RSpec), capacity contract and no fuel exhaustion (RCap) *)
+Theorem C01_hc_opt_parser :
+  forall vrd lim prefixIdx dictIdx s0 srcSize maxOut nb targetLength ultra fav,
+    (forall a, 0 <= vrd a < 256) ->
+    65536 <= dictIdx /\ dictIdx <= prefixIdx /\ prefixIdx <= s0 /\ s0 + srcSize < M32 - 65536 ->
+    0 <= srcSize -> 0 <= maxOut -> (lim = FillOutput -> 1 <= maxOut) ->
+    forall t, HcChainSearch.TB t s0 ->
+    HcChainSound.RSpec vrd lim dictIdx s0 srcSize (HcOpt.opt_compress vrd prefixIdx dictIdx lim s0 srcSize maxOut nb targetLength ultra fav t) /\
+    HcChainCap.RCap lim srcSize maxOut (HcOpt.opt_compress vrd prefixIdx dictIdx lim s0 srcSize maxOut nb targetLength ultra fav t).
+Proof. exact HcOptParser.opt_compress_ok. Qed.
+Print Assumptions C01_hc_opt_parser.
+
+(* the match search in EVERY configuration (patternAnalysis, chainSwap, favorDecSpeed on or off; any `longest`) *)
+Theorem C01_hc_opt_search :
+  forall vrd, (forall a, 0 <= vrd a < 256) ->
+  forall prefixIdx dictIdx, 65536 <= dictIdx /\ dictIdx <= prefixIdx ->
+  forall t B q iLow iHigh longest0 nb pa swap fav,
+    HcChainSearch.TB t B -> B <= q -> prefixIdx <= iLow -> iLow <= q -> q + 4 <= iHigh -> iHigh < M32 - 65536 ->
+    exists m t', HcChain.insertAndGetWiderMatch vrd prefixIdx dictIdx t q iLow iHigh longest0 nb pa swap fav = Some (m, t') /\
+      HcChainSearch.TB t' q /\ HcChain.t_ntu t' = q /\ longest0 <= HcChain.hm_len m /\
+      (longest0 < HcChain.hm_len m -> HcChainSearch.mvalid vrd dictIdx iLow iHigh q m).
+Proof. exact HcChainSearch.wider_sound_gen. Qed.
+Print Assumptions C01_hc_opt_search.
+
+(* Non-vacuity: LZ4_compress_HC at level 12 (ultra) and level 10, evaluated in the model *)
+Example C01_hc_opt_nonvacuous :
+  let l := concat (repeat [97; 98; 99; 100] 13) ++ [1; 2; 3; 4; 5; 6; 7; 8] in
+  let r := compress_HC_all (mem_of_list 0 l) 60 100 12 in
+  let l2 := [1;2;3;4;5;6;7;8;9;1;2;3;4;5;6;7;2;3;4;5;6;7;8;9;9;9;9;9;1;2;3;4;5;6;7;8;9] ++ repeat 7 20 ++ [1;2;3;4;5;6;7;8;9;10;11;12;13] in
+  let r2 := compress_HC_all (mem_of_list 0 l2) 70 100 10 in
+  (0 < cr_ret r < 30 /\ strict_valid [] (cr_out r) = Some l) /\
+  (cr_ret r2 = 35 /\ strict_valid [] (cr_out r2) = Some l2) /\ opt_level 12 = true /\ opt_level 10 = true /\ all_level 5 = true.
 Proof. vm_compute. repeat split; reflexivity. Qed.
